@@ -5,7 +5,7 @@
 struct isal_zstream *w_stream;
 uint8_t *w_in0;
 uint32_t w_avail0, w_total0;
-uint32_t w_copies, w_passes, g_hist;
+uint32_t w_copies, w_passes, g_hist, w_last_kind;
 #include "splice_defaults.h"
 #include <string.h>
 /* recording stub: its precondition is checked at each of the four copy sites of isal_deflate() */
@@ -22,5 +22,11 @@ h_isal_deflate_mem(void)
         struct isal_zstream *stream;
         int r = isal_deflate(stream);
         (void) r;
+        /* reachability probes (must FAIL, like the canary): the function returns after a pass on the internal buffer,
+         * after a first pass on the user chunk, and after a pass on the user chunk that follows internal passes (the
+         * loop-step copy of the do-while).  A stub postcondition that cannot be assumed cuts these paths silently. */
+        __CPROVER_assert(w_last_kind != 1, "VACUITY_CANARY: returns after a pass on the internal buffer");
+        __CPROVER_assert(!(w_last_kind == 2 && w_passes == 1), "VACUITY_CANARY: returns after a first pass on the user chunk");
+        __CPROVER_assert(!(w_last_kind == 2 && w_passes >= 2), "VACUITY_CANARY: returns after a later pass on the user chunk");
         VCANARY();
 }
